@@ -9,8 +9,10 @@ if ! git merge --no-edit -q ws-$N >/tmp/merge_$N.log 2>&1; then
   for f in lean/Driver.lean lean/VgiVerif.lean MANIFEST.json known_findings.json; do
     git checkout --ours -- $f 2>/dev/null || true
   done
+  for f in $(git diff --name-only --diff-filter=U | grep '^evidence/' || true); do git checkout --theirs -- $f; done
   python3 tools/gen_lean_roots.py
   git add -A
+  if grep -rl '^<<<<<<< ' --include=*.lean --include=*.py --include=*.json --include=*.md . 2>/dev/null | grep -v '^./lean/.lake' | grep -q .; then echo "UNRESOLVED CONFLICT MARKERS"; exit 1; fi
   if git diff --cached --name-only --diff-filter=U | grep -q .; then echo "UNRESOLVED CONFLICTS"; exit 1; fi
   git commit -q --no-edit
 fi
